@@ -223,7 +223,7 @@ def query_kind(case, q, W=None):
 # --------------------------------------------------------------------------------------
 
 def gen_cases(ctx, count, n_range, k_range, weakly_modes, want=("ok",), q_per=6, consts=0.05, depth=2,
-              outside_sig=0.1, max_tries=40, ties=0.0, deep=0.12, flat=0.06, conj=0.06, big=0.04, rekey=0.0):
+              outside_sig=0.1, max_tries=40, ties=0.0, deep=0.12, flat=0.06, conj=0.06, big=0.04, rekey=0.0, cost=0.08, infchain=0.12):
     """generate cases whose base status (by brute force classification) is in `want`"""
     rng = ctx.rng
     cases = []
@@ -235,6 +235,7 @@ def gen_cases(ctx, count, n_range, k_range, weakly_modes, want=("ok",), q_per=6,
         weakly = rng.choice(weakly_modes)
         nq = n
         queries = []
+        hintq = []
         if rng.random() < big and n_range[1] >= 5:
             # larger inputs: 6-7 atoms, 8-12 conditionals (>= 10 keys, up to 6 layers)
             n = nq = rng.randint(6, 7)
@@ -257,18 +258,31 @@ def gen_cases(ctx, count, n_range, k_range, weakly_modes, want=("ok",), q_per=6,
         elif rng.random() < ties and n_range[1] >= 4:
             n = nq = rng.randint(max(4, n_range[0]), n_range[1])
             conds, queries = core.gen_tie_case(rng, n)
+        elif weakly and rng.random() < infchain and n_range[1] >= 3:
+            n = nq = rng.randint(max(3, n_range[0]), n_range[1])
+            conds, queries = core.gen_infchain_case(rng, n)
+            hintq = list(queries)
+            queries = queries[:q_per]
+        elif rng.random() < cost and n_range[1] >= 5:
+            n = nq = rng.randint(max(5, n_range[0]), min(6, n_range[1]))
+            conds, queries = core.gen_cost_case(rng, n)
+            hintq = list(queries)
+            queries = queries[:q_per]
         elif rng.random() < conj and n_range[1] >= 3:
             n = nq = rng.randint(max(3, n_range[0]), n_range[1])
             conds, queries = core.gen_conj_case(rng, n)
+            hintq = list(queries)
             queries = queries[:q_per]
         elif rng.random() < flat and n_range[1] >= 3:
             n = nq = rng.randint(max(3, n_range[0]), n_range[1])
             conds, queries = core.gen_flat_case(rng, n)
+            hintq = list(queries)
             queries = queries[:q_per]
         elif rng.random() < deep and n_range[1] >= 4:
             n = nq = rng.randint(max(4, n_range[0]), n_range[1])
             conds, queries = core.gen_chain_case(rng, n)
             rng.shuffle(queries)
+            hintq = list(queries)
             queries = queries[:q_per]
         else:
             conds = core.gen_base(rng, n, k, depth=depth, consts=consts)
@@ -304,7 +318,10 @@ def gen_cases(ctx, count, n_range, k_range, weakly_modes, want=("ok",), q_per=6,
         if info["status"] not in want:
             continue
         case["_info"] = info
+        case["_hintq"] = hintq
         r = rng.random()
+        if r > 0.9:
+            case["inference_kwargs"] = {"_shared": True}
         if r < 0.06:
             # the answer must not depend on how the batch is evaluated or labelled: parallel evaluation, generous budgets that
             # never fire, display options
